@@ -438,7 +438,7 @@ def run(ctx):
         ctx.guard(check_case, ctx, fixed, 5, witness={"component": fixed})
         ctx.case(fixed)
         ctx.sample({"component": fixed, "output": str(build(fixed))})
-    for _ in range(ctx.budget(1500, 100000)):
+    for _ in range(ctx.budget(1500, 400000)):
         cnt = Counter()
         r = rand_comp(rng, cnt, rng.choice([0, 1, 2, 3, 4, 5]))
         ctx.guard(check_case, ctx, r, rng.randint(1, 5), witness={"component": r})
